@@ -72,7 +72,7 @@ def run(pid, tier, seed, cfg):
     from concurrent.futures import ThreadPoolExecutor
     with ThreadPoolExecutor(max_workers=len(cfg['parts'])) as ex:
         futs = [ex.submit(p, tier) for p in cfg['parts']]
-        parts = [f.result() for f in futs]
+        parts = [r for r in (f.result() for f in futs) if r is not None]   # a part may exist in one tier only
     failed = [f for p in parts for f in p['failed']]
     violations = []
     info = None
